@@ -10,14 +10,14 @@ KERNELS = ["island._reset_compact_maps", "island._compact_dofs"]
 LEVEL_TEXT = ("Theorems about the compaction kernels regenerated from island.py/solver.py on every run, for all sizes and task orders: the generated kernels equal a hand-written model; with "
               "count <= nvmax the maps dof_cdof/cdof_dof are mutually inverse between awake dofs and [0,ncdof), -1 elsewhere (incl. the padded tail), order inside a tree preserved; the NVMAX bit is "
               "set iff count > nvmax (exact fit grants everything, ncdof = min(count,nvmax)); gather followed by scatter restores qacc on active dofs and writes exactly 0 on frozen ones. "
-              "The theorems take the launch grid of _reset_compact_maps, (nworld, max(nv, nvmax_pad)), as a hypothesis (launch dims are not part of the generated model); that the host really "
+              "The theorems take the launch grid of _reset_compact_maps, (nworld, max(nv, nvmax_pad)), as a hypothesis that is discharged at host level by reset_compact_maps_grid (launch-dimension side table of the regenerated Gen/Host.lean: every launch of that kernel in step() uses exactly this grid); that the host really "
               "rebuilds the maps from tree_awake alone on a Data with history is sampled: forests of 4-6 independent trees (nv 20-36, dense and sparse, both cones, 1-2 worlds with different "
               "awake sets), ONE Data per case driven through a sequence of awake sets (highest tree, nothing, lowest tree, random subsets, every tree), DOF capacity in rotation "
               "(nvmax_pad = 16 < nv / default / some sets overflow); after every forward() dof_cdof, cdof_dof, ncdof equal a NumPy transcription, the NVMAX bit is set iff count > nvmax, frozen "
               "dofs have exactly zero qacc/qacc_smooth/qfrc_constraint, and the awake trees' qacc/qacc_smooth/qfrc_constraint equal MuJoCo's full (sleep-disabled) solve; the same checks on a "
               "leg driven only through qfrc_applied/forward/step (wake, fall asleep, wake another tree). "
               "That a dense solve on the compacted problem equals the full solve when every tree is awake is sampled (sleep-enabled vs sleep-disabled forward()).")
-LEVEL_NOTE = ("C38_partial: numerical equality of the compact Newton solve with the full solve, and the launch grids of update_active_dofs (hypotheses IsGrid2/IsGrid1 of the theorems), are "
+LEVEL_NOTE = ("C38_partial: numerical equality of the compact Newton solve with the full solve, and the launch grid of _compact_dofs (hypothesis IsGrid1; the grid of _reset_compact_maps is pinned by reset_compact_maps_grid) are "
               "sampled, incl. repeated calls on one Data with a changing awake set and nvmax_pad < nv. Trusted: Lean kernel, tier-B translator (interception).")
 ASSUMPTIONS = ["tree dof ranges are disjoint (MuJoCo compiler invariant)"]
 
